@@ -2,8 +2,8 @@ from ._seqcommon import seq_spec
 
 SPEC = seq_spec(
     "C01",
-    "Lean 4 theorems: for every event sequence the sequencer protocol model accepts (any number of instances, every fault outcome, crashes, restarts, any clock value) the lock-store history is a chain of extensions with strictly increasing timestamps and every published checkpoint was committed first. The model is tied to the code by the regenerated effect skeleton of sequencePool/CreateLog/LoadLog/openCheckpoint (Tie/Seq.lean) and by trace acceptance: the real ctlog.Log, run over scheduler-gated fault-injecting stores, must produce only event sequences the model accepts, with byte-exact roots/tiles.",
+    "Lean 4 theorems: for every event sequence the sequencer protocol model accepts (any number of instances, every fault outcome, crashes, restarts, any clock value) the lock-store history is a chain of extensions with strictly increasing timestamps and every published checkpoint was committed first; for runs with one live process at a time (the own quantifier of C01: ReachableSolo) the PUBLICATION history is monotone as well (C01_pub_monotone_solo: every published checkpoint extends every earlier one; false with overlapping instances, finding F3), and without tampering the checkpoint object is exactly the last effective checkpoint upload (C01_ckpt_object_is_last_publication). The model is tied to the code by the regenerated effect skeleton of sequencePool/CreateLog/LoadLog/openCheckpoint (Tie/Seq.lean) and by trace acceptance: the real ctlog.Log, run over scheduler-gated fault-injecting stores, must produce only event sequences the model accepts, with byte-exact roots/tiles.",
     "Trusted: Lean kernel, standard axioms, extractor, harness stores/scheduler, Lean SHA-256 rendering. Assumes the Backend/LockBackend contracts, collision resistance, unforgeability.",
     "invariant by induction over all accepted event sequences (Lean 4) + regenerated effect-skeleton tie + trace acceptance of the real code under systematic fault/crash/clock schedules",
-    required=["C01_lock_chain", "C01_pub_committed", "C01_no_fork", "C01_clock_guard"],
+    required=["C01_lock_chain", "C01_pub_committed", "C01_no_fork", "C01_clock_guard", "C01_pub_monotone_solo", "C01_ckpt_object_is_last_publication"],
 )
